@@ -309,7 +309,8 @@ Inductive kind :=
 | KCreateTable | KDropTable | KAddColumn | KDropColumn | KAlterColumn | KCreateIndex | KDropIndex
 | KAddConstraint (t : ctype) | KDropConstraint (t : option ctype) | KTableComment
 | KRenameTable | KExecute | KBulkInsert.
-Inductive tkind := KLeaf (k : kind) | KModify (ks : list kind).
+(* a container is identified by the table it is about (batch mode renders it as batch_alter_table(table, schema)) *)
+Inductive tkind := KLeaf (k : kind) | KModify (t : str) (s : option str) (ks : list kind).
 
 Definition addcons_type (a : addcons) : ctype := constr_type (to_constraint a).
 
@@ -333,7 +334,7 @@ Definition kind_of (o : op) : kind :=
   | BulkInsertOp _ _ => KBulkInsert
   end.
 Definition tkind_of (x : top) : tkind :=
-  match x with Leaf o => KLeaf (kind_of o) | ModifyTableOps _ _ l => KModify (map kind_of l) end.
+  match x with Leaf o => KLeaf (kind_of o) | ModifyTableOps t s l => KModify t s (map kind_of l) end.
 Definition kinds (l : list top) : list tkind := map tkind_of l.
 
 (* setting and removing the table comment are one kind (which of the two classes reverses a
@@ -351,7 +352,7 @@ Definition inverse_kind (k : kind) : kind :=
   | KRenameTable => KRenameTable | KExecute => KExecute | KBulkInsert => KBulkInsert
   end.
 Definition inverse_tkind (k : tkind) : tkind :=
-  match k with KLeaf k => KLeaf (inverse_kind k) | KModify ks => KModify (rev (map inverse_kind ks)) end.
+  match k with KLeaf k => KLeaf (inverse_kind k) | KModify t s ks => KModify t s (rev (map inverse_kind ks)) end.
 
 (* ------------------------------------------------------------------ what toimpl reads *)
 
